@@ -58,8 +58,14 @@ func vInCompatibleSet(ver string) bool {
 // (a) version gate: the version bytes are symbolic.
 func H_ver_gate() {
 	lv := vParam("lv")
-	b, _ := vSmallTrie(16).Marshal()
-	ver := vString("ver", lv)
+	b, _ := vSmallTrie(vParamDef("opt", 16)).Marshal()
+	// an optional concrete prefix (longer strings around the released versions) + symbolic rest
+	pre := []string{"", "0.5.", "0.5.1", "1.0.", "0.5.9", "0.5.12"}[vParamDef("pre", 0)]
+	ver := pre + vString("ver", lv)
+	lv = len(ver)
+	if lv > 16 {
+		vAssume(false)
+	}
 	// no NUL inside, so that verStr yields exactly `ver` (a trailing NUL is padding)
 	for i := 0; i < lv; i++ {
 		vAssume(ver[i] != 0)
@@ -76,6 +82,11 @@ func H_ver_gate() {
 	vAssert(vOr(rejected, vInCompatibleSet(ver)), "C07.incompatible-rejected")
 	if !rejected && err == nil {
 		vObserve("accepted", ver)
+		// the body is in the current layout: under the current version string it must answer as the
+		// trie it was made from (under an older accepted version the loader converts the body, and a
+		// relabelled current body is not a stream that version ever wrote: nothing is demanded there)
+		v, f := st.Get("ab")
+		vAssert(vImplies(vStrEq(ver, slimtrieVersion), f && v != nil && v.(uint16) == 1), "C07.accepted-answers")
 	}
 	if err != nil {
 		// after a rejected load: empty trie
